@@ -201,14 +201,24 @@ class FeatureStructure:
         subsumes : bool
             Whether the current feature structure subsumes the one.
         """
+        return self._subsumes(other, {})
+
+    def _subsumes(self, other: "FeatureStructure", seen):
         current_dereferenced = self.get_dereferenced()
         other_dereferenced = other.get_dereferenced()
         if current_dereferenced.value != other_dereferenced.value:
             return False
+        if current_dereferenced.value is None:
+            # A structure shared by two paths carries the information that
+            # they are equal: it has to be shared in the other one too
+            if id(current_dereferenced) in seen:
+                return seen[id(current_dereferenced)] is other_dereferenced
+            seen[id(current_dereferenced)] = other_dereferenced
         for feature in current_dereferenced.content:
             if feature not in other_dereferenced.content:
                 return False
-            if not current_dereferenced.content[feature].subsumes(other_dereferenced.content[feature]):
+            if not current_dereferenced.content[feature]._subsumes(
+                    other_dereferenced.content[feature], seen):
                 return False
         return True
 
